@@ -2278,6 +2278,10 @@ class _ReadDTCType1Response(
                 from_bytes(dtc_and_status_record[i : i + 3]): dtc_and_status_record[i + 3]
                 for i in range(0, len(dtc_and_status_record), 4)
             }
+
+            # A mapping cannot hold the same DTC twice; silently dropping records would change the PDU
+            if len(self.dtc_and_status_record) != len(dtc_and_status_record) // 4:
+                raise ValueError("The dtc_and_status_record contains the same DTC more than once")
         else:
             for dtc, status in dtc_and_status_record.items():
                 check_range(dtc, "DTC", 0, 0xFFFFFF)
